@@ -34,6 +34,7 @@ type H struct {
 	Items  []*H     `json:"items,omitempty"` // slice / array elements, struct field values
 	Keys   []*H     `json:"keys,omitempty"`  // map keys (parallel to Items)
 	Fields []HF     `json:"fields,omitempty"`
+	Alias  int      `json:"alias,omitempty"` // struct field of pointer type: 1 + index of the earlier sibling field whose (non-nil) pointer this field holds too
 }
 
 type HF struct {
@@ -136,6 +137,10 @@ func (h *H) goValue() reflect.Value {
 		}
 	case h.K == "struct":
 		for i, it := range h.Items {
+			if j := it.Alias - 1; j >= 0 && j < i && it.K == "ptr" && !it.Nil && !h.Items[j].Nil && v.Field(j).Type() == v.Field(i).Type() {
+				v.Field(i).Set(v.Field(j)) // one object reachable through two fields
+				continue
+			}
 			v.Field(i).Set(it.goValue())
 		}
 	case h.K == "chan":
@@ -754,9 +759,39 @@ func genHostCase(t *rapid.T) *HostCase {
 			ty = &H{K: "map", KeyT: pick2(t, []*H{{K: "string"}, {K: "int"}}), Elem: inner}
 		}
 	}
+	aliased := rapid.IntRange(0, 7).Draw(t, "aliased") == 0
+	if aliased {
+		// one object reachable through two pointer fields of one struct (the fields declared optional or
+		// not independently): conversion sees the same address twice
+		tgt := pick2(t, []*H{{K: "int"}, {K: "string"}, {K: "struct", Fields: []HF{{Go: "A", Tag: `yae:"a"`}, {Go: "B"}}, Items: []*H{{K: "float64"}, {K: "string"}}}, {K: "slice", Elem: &H{K: "int"}}})
+		tags := [][2]string{{`yae:"p,maybe"`, `yae:"q"`}, {`yae:"p"`, `yae:"q,maybe"`}, {"", ""}, {`yae:"p,maybe"`, `yae:"q,maybe"`}}[rapid.IntRange(0, 3).Draw(t, "aliastags")]
+		ty = &H{K: "struct", Fields: []HF{{Go: "P", Tag: tags[0]}, {Go: "N"}, {Go: "Q", Tag: tags[1]}}, Items: []*H{{K: "ptr", Elem: tgt}, {K: "int"}, {K: "ptr", Elem: tgt}}}
+		if rapid.Bool().Draw(t, "aliasinlist") {
+			ty = &H{K: "slice", Elem: ty}
+		}
+	}
+	alias := func(h *H) {
+		var rows []*H
+		if h.K == "struct" {
+			rows = []*H{h}
+		} else if !h.Nil {
+			rows = h.Items
+		}
+		for _, r := range rows {
+			if !r.Items[0].Nil && !r.Items[2].Nil && rapid.IntRange(0, 2).Draw(t, "share") > 0 {
+				r.Items[2].Elem, r.Items[2].Alias = r.Items[0].Elem, 1
+			}
+		}
+	}
 	c := &HostCase{V1: g.fill(ty, true)}
 	// second value: same Go type (arrays keep their length through the filled witness)
 	c.V2 = g.fill(typeWitness(c.V1), true)
+	if aliased {
+		alias(c.V1)
+		if rapid.Bool().Draw(t, "aliasboth") {
+			alias(c.V2)
+		}
+	}
 	return c
 }
 
@@ -984,6 +1019,9 @@ func hostFeatures(h *H) (depth int, feat map[string]bool) {
 		switch x.K {
 		case "ptr":
 			feat["pointer"] = true
+			if x.Alias > 0 {
+				feat["aliased-pointer-fields"] = true
+			}
 			if !x.Nil {
 				d = w(x.Elem)
 			}
